@@ -52,6 +52,9 @@ def check_selection(res, E):
             res.inconclusive.append("include_origin path %d: result not symbolic (%r)" % (i, r))
             continue
         n += 1
+        if len(res.samples) < 6:
+            res.samples.append({"function": "SelectResource::include_origin", "path_condition": [str(z3.simplify(c))[:120] for c in p.cond][:4],
+                                "result": str(z3.simplify(r))[:160]})
         m = E.model(p.cond, r != expect)
         if m is not None:
             fn = mprop.write_cex(res, "include_origin_%d" % i, p, E,
@@ -205,6 +208,7 @@ def check_selection_building(res, E, SR):
                                   "(no rule appended): the output omits payload the user selected%s" % ("; reproduced natively" if ok else ""), fn)
                 bad = True
                 break
+    res.samples.append({"function": "Output::update_from_query", "paths": len(ps), "parsed_value_segments_checked": seen_parse})
     if seen_parse < 2:
         res.inconclusive.append("vacuity: update_from_query: only %d parsed-value segments seen" % seen_parse)
     return n
